@@ -125,7 +125,16 @@ impl<S: Sample> FrameRenderHandle<S> {
     }
 
     pub fn run_with_image(self: Arc<Self>) -> Result<RenderedImage<S>> {
-        let render = if let Some(state) = self.start_render()? {
+        let render = loop {
+            let Some(state) = self.start_render()? else {
+                match self.wait_until_render() {
+                    Ok(render) => break render,
+                    // The image was taken after `start_render`; render it again.
+                    Err(Error::IncompleteFrame) => continue,
+                    Err(e) => return Err(e),
+                }
+            };
+
             let _guard = tracing::trace_span!("Run with image", index = self.frame.idx).entered();
 
             let render_result = (self.render_op)(state, self.image_region);
@@ -140,9 +149,7 @@ impl<S: Sample> FrameRenderHandle<S> {
                 }
                 _ => {}
             }
-            self.done_render(render_result)
-        } else {
-            self.wait_until_render()?
+            break self.done_render(render_result);
         };
         drop(render);
 
